@@ -250,6 +250,7 @@ pub fn scenarios(thorough: bool) -> Vec<Scenario> {
     v.push(travel_reuse_scenario("pair-travel-reuse", if thorough { 5 } else { 4 }, &[]));
     // replica 1 lacks the tenth and eleventh commit of replica 0 (block indexes 10 and 11)
     v.push(many_commits_scenario("pair-many-commits", if thorough { 3 } else { 2 }, &[]));
+    v.extend(cross_scenarios(thorough));
     v
 }
 
